@@ -148,7 +148,7 @@ CHECKS = {
     },
     "C03": {
         "level": "exploration",
-        "parts": [{"gen": "C03", "quick": 6000, "thorough": 120000}],
+        "parts": [{"gen": "C03", "quick": 6000, "thorough": 120000}, {"gen": "C03keys", "quick": 400, "thorough": 8000}],
         "rule": "refinement against an independent reference implementation of the published formats (/verif/refimpl: no dependency on /repo, shares only third-party crypto crates; calibrated against the repository's own known-answer vectors) "
                 "placed as a second party on the simulated wire. The mode cycles with the seed: real client -> strict reference server (which also answers), reference client -> real server -> target, the same two for Shadowsocks datagrams, "
                 "and the library's stream encoder driven directly with one 70 000-byte write. Cells: 7 Shadowsocks ciphers (2022 AES ones also with 1 and 3 registered users, the reference client being a drawn user), VMess x 2 with all 8 option masks that contain ChunkStream, Trojan; "
@@ -156,7 +156,8 @@ CHECKS = {
                 "the code accepts everything the reference emits with the same result, sender limits hold (legacy chunk <= 0x3FFF, 2022 chunk <= 0xFFFF).",
         "real": REAL_SYSTEM, "stub": STUB_SYSTEM + ["the other protocol party is the reference implementation"], "assumptions": ASSUME_SYSTEM + [
             "the reference is the harness author's reading of SIP004 / SIP022 / SIP023, the VMess AEAD description and Trojan; where the de-facto specification is v2ray's behaviour (authenticated length keyed by the request key and IV in both directions, padding drawn before the size mask) it follows that - these points have reduced independence",
-            "VMess / Trojan datagram-in-stream formats are exercised between the two real ends (C02), not against the reference"],
+            "VMess / Trojan datagram-in-stream formats are exercised between the two real ends (C02) and against the reference client in C04udp",
+            "generator C03keys (identity headers through a chain of relays): the client's password lists 1-5 keys drawn from the seed; its stream request and its datagrams are taken through the chain the specification describes by the reference - relay i checks that identity header i names key i+1 and strips it, the last hop is a server that knows the user key - and address and payload must come out unchanged"],
     },
     "C10": {
         "level": "fault_enumeration",
@@ -210,7 +211,7 @@ CHECKS = {
         "rule": "two engines. Task level (simnet): a batch of 2-8 (10%: 9-24, thorough -64) concurrent TCP flows through the real client and server over a cycling (protocol, cipher, tcp/tls/ws/wss) cell with drawn network knobs is run once all together "
                 "and once per flow alone (same seed, same slot); each flow's observable result (handshake, number of dials to its target, bytes and integrity each way, how each end saw it finish) must be identical. "
                 "Thread level (shuttle, hook H6): 2-4 threads under shuttle's seeded random and PCT schedulers each decode a reference-built Shadowsocks-2022 request with the real server-side decoder against one shared Context (salt cache): "
-                "the same request (at most one - and exactly one - acceptance), distinct requests (all accepted), a mix; never a panic. Further simnet parts: datagram sessions of several applications together versus alone (C09udp); sessions that present the same session id under different keys / users (C09sid). Miri part: three threads encode / decode 2022 datagrams through the process-wide cipher cache. evaluations = flows compared + schedules; distinct = (plan, poll order) hashes + distinct thread orders.",
+                "the same request (at most one - and exactly one - acceptance), distinct requests (all accepted), a mix; never a panic. Further simnet parts: datagram sessions of several applications together versus alone, and every (local socket, target) session of an application alone versus with the application's other sessions (C09udp); sessions that present the same session id under different keys / users (C09sid). Miri part: three threads encode / decode 2022 datagrams through the process-wide cipher cache. evaluations = flows compared + schedules; distinct = (plan, poll order) hashes + distinct thread orders.",
         "real": REAL_SYSTEM + ["shuttle part: octo_squirrel::codec::shadowsocks::tcp::{Context, AEADCipherCodec} built from /repo's sources through a shadow manifest"],
         "stub": STUB_SYSTEM + ["shuttle part: std::sync::Mutex of the salt cache -> shuttle::sync::Mutex; wall clock is the real one there"],
         "assumptions": ASSUME_SYSTEM + ["real parallel execution of whole relay tasks on tokio's multi-thread scheduler is not covered: flows share no mutable state besides the salt cache (shuttle) and the UDP cipher cache", "the datagram cipher cache is covered at thread level by the Miri part (3 threads, real SessionCodec, seeded scheduler): aliasing violations and data races, not functional interleavings of whole sessions"],
